@@ -186,6 +186,68 @@ fn body(space: Space) -> impl Fn(&Ch) -> Run + Sync + Send {
   }
 }
 
+/// Graphs that carry fast-check data: generated package + dependency package
+/// after `build_fast_check_type_graph`, pruned, against a CodeOnly build.
+fn body_fast_check(slots: usize) -> impl Fn(&Ch) -> Run + Sync + Send {
+  move |ch: &Ch| {
+    let mut run = Run::default();
+    let g = crate::fcgen::gen_package(ch, slots);
+    let dep_is_root = ch.choose("root_imports_dependency_package_too", 2) == 1;
+    let roots: Vec<usize> = if dep_is_root { vec![0, 1] } else { vec![0] };
+    let pkgs = [g.pkg.clone(), g.dep.clone()];
+    let (Some(all), Some(code)) = (
+      crate::fc::fast_check_roots_kind(&pkgs, &roots, None, ch, GraphKind::All),
+      crate::fc::fast_check_roots_kind(&pkgs, &roots, None, ch, GraphKind::CodeOnly),
+    ) else {
+      run.violate("build-did-not-finish", "deadlock", json!({}));
+      return run;
+    };
+    let with_fc = all.modules.values().filter(|(_, s)| matches!(s, crate::fc::FcSlot::Module { .. })).count();
+    let mut all = all.graph;
+    let code = code.graph;
+    all.prune_types();
+    run.evals = 1;
+    let a = code_view(&all);
+    let c = code_view(&code);
+    let case = || json!({"package": g.pkg.files.iter().map(|(p, s)| json!([p, s])).collect::<Vec<_>>(), "exports": g.pkg.exports, "workspace_member": g.pkg.workspace, "modules_with_fast_check_output_before_pruning": with_fc, "pruned": a, "code_only": c});
+    if a != c {
+      let comp = ["slots", "redirects", "code_edges", "valid", "has_node_specifier"].iter().find(|k| a[**k] != c[**k]).unwrap();
+      let detail = diff_detail(&a[*comp], &c[*comp]);
+      run.violate(format!("pruned-differs-from-code-only@{comp}:{}", detail.0), format!("prune_types() of a graph with fast-check data differs from a CodeOnly build in `{comp}`: {}", detail.1), case());
+    }
+    if all.graph_kind() != GraphKind::CodeOnly {
+      run.violate("pruned-not-code-only", "graph_kind() is not CodeOnly", case());
+    }
+    for m in all.modules() {
+      if let Some(js) = m.js() {
+        if js.fast_check.is_some() {
+          run.violate("pruned-keeps-fast-check", format!("{}", js.specifier), case());
+        }
+        if js.maybe_types_dependency.is_some() {
+          run.violate("pruned-keeps-types-dependency", format!("{}", js.specifier), case());
+        }
+      }
+      for (t, d) in m.dependencies() {
+        if !d.maybe_type.is_none() || d.maybe_deno_types_specifier.is_some() {
+          run.violate("pruned-keeps-type-resolution", format!("{} dep {t:?}", m.specifier()), case());
+        }
+      }
+    }
+    // serialised form carries no fast-check residue either
+    if serde_json::to_string(&all).unwrap().contains("fastCheck") {
+      run.violate("pruned-keeps-fast-check", "serialised graph mentions fastCheck", case());
+    }
+    run.count("graphs_with_fast_check_modules_before_pruning", (with_fc > 0) as u64);
+    run.state_key = hash_of(&format!("{:?}{:?}{}{}", g.pkg.files, g.pkg.exports, g.pkg.workspace, dep_is_root));
+    run.nontrivial = with_fc > 0;
+    run.outcome_key = hash_json(&c);
+    if ch.describe() {
+      run.sample = Some(json!({"package": g.pkg.files.iter().map(|(p, s)| json!([p, s])).collect::<Vec<_>>(), "modules_with_fast_check_output_before_pruning": with_fc}));
+    }
+    run
+  }
+}
+
 /// (class, text) for the first difference between two JSON maps
 pub fn diff_detail(a: &Value, b: &Value) -> (String, String) {
   if let (Some(ma), Some(mb)) = (a.as_object(), b.as_object()) {
@@ -244,6 +306,15 @@ pub fn prop(tier: Tier) -> Prop {
     ],
   };
   let mut parts = parts;
+  parts.push(Part {
+    name: "fast-check",
+    body: Box::new(body_fast_check(2)),
+    modes: match tier {
+      Tier::Quick => vec![Mode::Deviations(1), Mode::Deviations(2)],
+      Tier::Thorough => vec![Mode::Deviations(2), Mode::Deviations(3)],
+    },
+    what: "graphs with fast-check data (generated registry / workspace package + dependency package after build_fast_check_type_graph): prune_types() vs a CodeOnly build of the same world, no fast-check residue",
+  });
   match tier {
     Tier::Quick => parts.push(Part {
       name: "core",
